@@ -9,7 +9,7 @@ func init() {
 			"pool accumulators are brought up to now before positions, ticks or incentive records change; claiming sets the position's snapshot to init + growth outside, claims, then re-bases to global − outside; emission pays min(emitted, remaining) and deducts exactly what it paid; rewards for an uptime the position has not reached are forfeited, never added to the collected coins.",
 		NotCovered:  []string{"proportionality and identical-positions-earn-identical-rewards as numbers", "totals claimable vs paid in over histories"},
 		Assumptions: []string{"osmoutils/accum semantics (C15)"},
-		MinObl:      59,
+		MinObl:      68,
 		Run:         runC08,
 	})
 }
@@ -45,6 +45,8 @@ func runC08(c *rules.Ctx) {
 	// ---- accrue before mutate
 	c.Order(K+"prepareClaimAllIncentivesForPosition", "cl.Keeper.UpdatePoolUptimeAccumulatorsToNow", "cl.updateAccumAndClaimRewards", "incentives are accrued up to now before a position claims")
 	c.Order(K+"CreateIncentive", "cl.Keeper.UpdatePoolUptimeAccumulatorsToNow", "cl.Keeper.setIncentiveRecord", "accrual up to now precedes a new incentive record")
+	clScalingMigrationRules(c)
+	clCrossTickRules(c)
 	clUptimePositionRules(c)
 	c.Order(K+"initOrUpdatePositionUptimeAccumulators", "cl.Keeper.UpdatePoolUptimeAccumulatorsToNow", "cl.Keeper.GetUptimeAccumulators", "accrual up to now precedes the position's accumulator update")
 	c.NeverAfter(K+"WithdrawPosition", "cl.Keeper.UpdatePosition", "cl.Keeper.collectIncentives", "incentives are collected before the position's liquidity changes")
